@@ -48,7 +48,7 @@ impl Check for C13C {
                 set_value: true,
                 max_creations: 1,
                 names: &["n", "x", "r", "a:b", "", "1a", "a b", "xml", "a:b:c", "n\r", "n\n"],
-                values: &["v", "", "a b", "x<y", "a&b"],
+                values: &["v", "", "a b", "x<y", "a&b", "a]]>b"],
             chardata: &[],
             chardata_extra: 0,
             chardata_full: true,
@@ -65,7 +65,7 @@ impl Check for C13C {
     }
     fn meta(&self) -> Meta {
         Meta {
-            rule: "the same explicit-state search as C12, with the reference DOM Level 1 tree (mc/src/model/dom.rs) applied in lock-step: for every (state, call) the model yields the set of acceptable successor trees or the set of exception classes DOM Level 1 allows (any member passes; where the Recommendation is silent both an unchanged success and any error pass). Checked per transition: no panic; outcome in the allowed set; on success the observed tree (all handles: kind, name, value, parent, child list, attribute map, owner) and the returned node equal an acceptable successor; on failure the complete observation (tree, order-key ranks, serialization) is identical to the one before the call; a node of a structurally equal but distinct document is refused. States where model and implementation disagree are reported and not expanded further. Names from {n, x, r (a look-alike of the document element), a:b, '', 1a, 'a b', xml, a:b:c}, values from {v, '', 'a b', x<y, a&b}.",
+            rule: "the same explicit-state search as C12, with the reference DOM Level 1 tree (mc/src/model/dom.rs) applied in lock-step: for every (state, call) the model yields the set of acceptable successor trees or the set of exception classes DOM Level 1 allows (any member passes; where the Recommendation is silent both an unchanged success and any error pass). Checked per transition: no panic; outcome in the allowed set; on success the observed tree (all handles: kind, name, value, parent, child list, attribute map, owner) and the returned node equal an acceptable successor; on failure the complete observation (tree, order-key ranks, serialization) is identical to the one before the call; a node of a structurally equal but distinct document is refused. States where model and implementation disagree are reported and not expanded further. Names from {n, x, r (a look-alike of the document element), a:b, '', 1a, 'a b', xml, a:b:c}, values from {v, '', 'a b', x<y, a&b, a]]>b (a text an attribute may hold and an element may not)}.",
             bounds_quick: "7 initial documents (3 with a foreign document) + 2 in the merged-text view (panic and atomicity monitors only), history depth 2, at most 1 created node per history",
             bounds_thorough: "7 + 2 initial documents, history depth 3, at most 1 created node per history",
             assumptions: &[
